@@ -2,6 +2,7 @@ package main
 
 import (
 	"fmt"
+	ctok "github.com/pip-services3-gox/pip-services3-expressions-gox/calculator/tokenizers"
 	"github.com/pip-services3-gox/pip-services3-expressions-gox/tokenizers"
 	"math"
 	"strings"
@@ -358,7 +359,14 @@ func lexClassOracle(expr string, initial []string) string {
 // foreignToken returns the first token of the text that no class of the expression language admits: a symbol or
 // keyword outside the operator table, an Unknown token (a character the tokenizer has no state for), an empty word
 func foreignToken(expr string) string {
-	for _, t := range exprTokens(expr) {
+	// the tokens of the text with NOTHING skipped (whatever options the constructor or the parser may have set)
+	var toks []*tokenizers.Token
+	if e := strings.Trim(expr, " \t\r\n"); e != "" {
+		t := ctok.NewExpressionTokenizer()
+		setOpts(t, 8|64)
+		toks = t.TokenizeBuffer(e)
+	}
+	for _, t := range toks {
 		switch t.Type() {
 		case tokenizers.Symbol, tokenizers.Keyword:
 			up := strings.ToUpper(t.Value())
